@@ -55,7 +55,7 @@ inline uint64_t hash_str(const char* s) {
 
 inline std::string fmt(const char* f, ...) __attribute__((format(printf, 1, 2)));
 inline std::string fmt(const char* f, ...) {
-  char buf[2048];
+  char buf[4096];
   va_list ap;
   va_start(ap, f);
   vsnprintf(buf, sizeof buf, f, ap);
@@ -122,6 +122,48 @@ struct Recorder {
     o.done = true;
   }
 };
+
+// generic helpers for printing / hashing histories
+template <class F>
+std::string history_str(const History& h, F op_str) {
+  std::vector<const OpRec*> v;
+  for (auto& o : h.ops)
+    v.push_back(&o);
+  std::sort(v.begin(), v.end(), [](const OpRec* x, const OpRec* y) { return x->call < y->call; });
+  std::string s;
+  for (auto* o : v) {
+    s += op_str(*o);
+    s += "\n";
+  }
+  return s;
+}
+
+inline uint64_t history_hash(const History& h) {
+  // order of call/return events + arguments + results
+  struct Ev {
+    uint64_t t;
+    uint64_t v;
+  };
+  std::vector<Ev> ev;
+  for (auto& o : h.ops) {
+    uint64_t base = mix64(mix64(o.thread, o.kind), mix64((uint64_t)o.a, (uint64_t)o.b));
+    ev.push_back({o.call, mix64(base, 1)});
+    ev.push_back({o.ret, mix64(mix64(base, 2), mix64((uint64_t)o.r, (uint64_t)o.r2))});
+  }
+  std::sort(ev.begin(), ev.end(), [](const Ev& a, const Ev& b) { return a.t < b.t; });
+  uint64_t hsh = 0x1234;
+  for (auto& e : ev)
+    hsh = mix64(hsh, e.v);
+  return hsh;
+}
+
+inline bool history_nontrivial(const History& h) {
+  for (auto& o : h.ops)
+    if (o.thread != 0 && o.overlap)
+      return true;
+  return false;
+}
+
 
 // ------------------------------------------------------------------------------------------------ WGL checker
 enum Verdict { V_OK = 0, V_VIOLATION = 1, V_INCONCLUSIVE = 2 };
@@ -443,8 +485,11 @@ inline int scenario_main(int argc, char** argv, const ScenarioDef& def) {
     for (auto& kv : counters().c)
       cj += fmt("%s\"%s\":%" PRIu64, cj.empty() ? "" : ",", kv.first.c_str(), kv.second);
     std::string sj;
-    for (auto& s : samples)
-      sj += fmt("%s\"%s\"", sj.empty() ? "" : ",", json_escape(s).c_str());
+    for (auto& s : samples) {
+      if (!sj.empty())
+        sj += ",";
+      sj += "\"" + json_escape(s.size() > 6000 ? s.substr(0, 6000) + "..." : s) + "\"";
+    }
     printf("{\"summary\":true,\"scenario\":\"%s\",\"config\":\"%s\",\"mode\":\"%s\",\"seed\":%" PRIu64 ",\"execs\":%" PRIu64
            ",\"violations\":%d,\"inconclusive\":%" PRIu64 ",\"distinct\":%zu,\"distinct_nontrivial\":%zu,"
            "\"episodes\":%" PRIu64 ",\"steps\":%" PRIu64 ",\"switches\":%" PRIu64 ",\"stale_reads\":%" PRIu64
